@@ -264,6 +264,32 @@ def noop_twin_scripts(prop, tier, rng):
     return S
 
 
+def delay_twin_scripts(tier, rng):
+    """C14: the reported delay follows the ratio in force, however it was reached: instance 0 changes its ratio
+    with ramps, instance 1 without; TraceTwin.TwinDelay compares output_delay() after every processing call."""
+    S = []
+    for _ in range({"quick": 30, "thorough": 300}[tier]):
+        for kind in gen.ASYNC:
+            n = gen.new_op(rng, kind, small=rng.random() < 0.3)
+            n["maxrel"] = gen.rj(Fraction(4))
+            n["r"] = gen.rj(rng.choice([Fraction(1), Fraction(2), Fraction(4), Fraction(1, 2), Fraction(3, 2), Fraction(8)]))
+            n["signal"] = "noise"
+            n.pop("probe", None)
+            ops = [dict(n, id=0), dict(n, id=1), {"op": "note", "twin": "delay", "a": 0, "b": 1}]
+            orig = gen.frac_of(n["r"])
+            for _c in range(rng.randrange(2, 6)):
+                x = orig * rng.choice([Fraction(1, 4), Fraction(1, 2), Fraction(1), Fraction(2), Fraction(4), Fraction(3, 4)])
+                ops.append({"op": "set_ratio", "id": 0, "x": gen.rj(x), "ramp": True, "rel": False})
+                ops.append({"op": "set_ratio", "id": 1, "x": gen.rj(x), "ramp": False, "rel": False})
+                for _p in range(rng.randrange(1, 4)):
+                    ops.append({"op": "process", "id": 0})
+                    ops.append({"op": "process", "id": 1})
+                if rng.random() < 0.2:
+                    ops += [{"op": "reset", "id": 0}, {"op": "reset", "id": 1}]
+            S.append(ops)
+    return S
+
+
 def rel_abs_twin_scripts(tier, rng):
     """C12: set_resample_ratio_relative(x) behaves as set_resample_ratio(original*x): instance A is
     driven with relative values, twin B with the absolute ones (TwinCtl: results, counts, getters)."""
@@ -332,7 +358,8 @@ def check(prop, tier, seed, replay=None):
     if replay:
         ok, out = run.replay_hard(replay, preds, wd)
         if ok and any('"twin"' in l for l in open(replay)):
-            ok, out = run.replay_hard(replay, ["TwinFull", "TwinCtl"], wd, module="TraceTwin")
+            ok, out = run.replay_hard(replay, ["TwinDelay"] if prop == "C14" else ["TwinFull", "TwinCtl"], wd,
+                                      module="TraceTwin")
         print(out[-3000:] if not ok else "replay: all predicates hold on " + replay)
         if not ok:
             print("VIOLATION property=%s replay=%s" % (prop, replay))
@@ -501,12 +528,16 @@ def check(prop, tier, seed, replay=None):
                 lines.append("VIOLATION property=%s replay=%s predicate=%s line=%d" % (prop, keep, name, line))
 
     # ---- 4b. C12/C13: "a rejected call changes nothing": twin that never saw the rejected calls
-    if prop in ("C12", "C13"):
-        tw = noop_twin_scripts(prop, tier, rng)
+    if prop in ("C12", "C13", "C14"):
+        if prop == "C14":
+            tw = delay_twin_scripts(tier, rng)
+        else:
+            tw = noop_twin_scripts(prop, tier, rng)
         if prop == "C12":
             tw += rel_abs_twin_scripts(tier, rng)
         tpairs = run.run_scripts([("t-%05d" % k, o) for k, o in enumerate(tw)], wd, prefix="t")
-        tres = run.validate_traces(tpairs, ["TwinFull", "TwinCtl"], wd, module="TraceTwin", tag=prop + "t")
+        tres = run.validate_traces(tpairs, ["TwinDelay"] if prop == "C14" else ["TwinFull", "TwinCtl"], wd,
+                                   module="TraceTwin", tag=prop + "t")
         run.pair_stats(tres, cov, prop)
         cov["states"] += tres["states"]
         cov["transitions"] += tres["transitions"]
